@@ -49,6 +49,31 @@ void h_sha1_round_lemma(void) {
     V_COVER(in.a == 1 && in.K == 0x5a827999u);
 }
 
+/* multi-block calls: sha*_transf(ctx, m, 2) == two successive single-block calls on consecutive blocks
+ * (real function against itself; bounded: 2 blocks).  Links the single-block equivalence to the calls that
+ * update() makes with block_nb > 1. */
+typedef struct { sha256_ctx c; unsigned char blk[128]; } IN_m256;
+typedef struct { sha512_ctx c; unsigned char blk[256]; } IN_m512;
+V_INPUT(IN_m256) V_INPUT(IN_m512)
+void h_sha256_transf_multi(void) {
+    IN_m256 in = nondet_IN_m256();
+    sha256_ctx c1 = in.c, c2 = in.c;
+    unsigned char *b = malloc(128); V_ASSUME(b != NULL); memcpy(b, in.blk, 128);
+    sha256_transf(&c1, b, 2);
+    sha256_transf(&c2, b, 1); sha256_transf(&c2, b + 64, 1);
+    for(int i = 0; i < 8; i++) V_ASSERT(c1.h[i] == c2.h[i], "C18.sha256_transf.two_blocks_equal_two_single_block_calls");
+    V_COVER(c1.h[0] != in.c.h[0]);
+}
+void h_sha512_transf_multi(void) {
+    IN_m512 in = nondet_IN_m512();
+    sha512_ctx c1 = in.c, c2 = in.c;
+    unsigned char *b = malloc(256); V_ASSUME(b != NULL); memcpy(b, in.blk, 256);
+    sha512_transf(&c1, b, 2);
+    sha512_transf(&c2, b, 1); sha512_transf(&c2, b + 128, 1);
+    for(int i = 0; i < 8; i++) V_ASSERT(c1.h[i] == c2.h[i], "C18.sha512_transf.two_blocks_equal_two_single_block_calls");
+    V_COVER(c1.h[0] != in.c.h[0]);
+}
+
 #ifdef VERIF_NATIVE
 #include "replay_in.h"
 #endif
